@@ -133,6 +133,17 @@ def run(ctx):
             d = lpgen.gen_spec(rng, ty="to_humans" if rng.random() < 0.85 else "to_animals", solvable=True, nmax=16)
         bases.append(({"synthetic": True}, d, None))
     items, meta = [], []
+    # corpus: recorded witnesses run first
+    import os
+    cdir = "/verif/corpus/C12"
+    if os.path.isdir(cdir):
+        for f in sorted(os.listdir(cdir)):
+            c = json.load(open(os.path.join(cdir, f)))
+            w = {"corpus": f}
+            items.append({"spec": c["base"], "solve": True})
+            meta.append((w, "base", None, None, c["base"]))
+            items.append({"spec": c["perturbed"], "solve": True})
+            meta.append((w, c["kind"], c["label"], c["expected"], c["perturbed"]))
     for where, d, rec in bases:
         items.append({"spec": d, "solve": True})
         meta.append((where, "base", None, None, d))
@@ -144,11 +155,13 @@ def run(ctx):
     dist = {"bases": len(bases), "perturbed": 0, "by_kind": {}, "perturbed_infeasible": 0, "base_infeasible": 0,
             "reconstructed_base_mismatch": 0}
     base_opt = None
+    base_rows = None
     file_specs = []
     for (where, kind, label, exp, spec), r in zip(meta, out):
         if kind == "base":
             base_opt = None if "error" in r else r["percent_fed_from_model"]
             base_spec = spec
+            base_rows = r.get("rows")
             if base_opt is None:
                 dist["base_infeasible"] += 1
             # a reconstructed real instance must reproduce the optimum the real run reported
@@ -183,20 +196,24 @@ def run(ctx):
         tol = REL * (1 + abs(target))
         badness = (exp == "ge" and p < base_opt - tol) or (exp == "le" and p > base_opt + tol) or \
                   (exp == "eq" and abs(p - target) > tol)
-        if badness and abs(p - target) <= 2e-3 * (1 + abs(target)):
-            # small gaps on ill-conditioned instances can be CBC's precision: decide on an independent exact-ish re-solve
+        if badness and "rows" in r and base_rows is not None:
+            # CBC loses precision on badly scaled or ill-conditioned instances (seen: 3 % on a x1000 scaled real LP, 1e-4 on
+            # seaweed ledgers).  Decide on the CODE'S OWN rows (captured from PuLP) re-solved with HiGHS: a defect of the
+            # formulation is still there, a solver precision gap is not.
             import lpspec
-            sb, ob, _ = lpspec.solve_spec(base_spec, base_spec["ty"])
-            sp, op_, _ = lpspec.solve_spec(spec, spec["ty"])
+            sb, ob = lpspec.solve_rows(base_rows)
+            sp, op_ = lpspec.solve_rows(r["rows"])
             if sb == 0 and sp == 0:
                 tg = ob * (float(exp0[3:]) if exp0.startswith("eq*") else 1.0)
                 tl = REL * (1 + abs(tg))
                 ok2 = (exp == "ge" and op_ >= tg - tl) or (exp == "le" and op_ <= tg + tl) or (exp == "eq" and abs(op_ - tg) <= tl)
                 if ok2:
-                    dist.setdefault("solver_tolerance_cases", []).append({"where": where, "label": label, "cbc": [base_opt, p], "highs": [ob, op_]})
+                    dist.setdefault("solver_precision_cases", []).append(
+                        {"where": where, "label": label, "cbc": [base_opt, p], "own_rows_highs": [ob, op_]})
                     badness = False
         if badness:
-            ctx.violation(f"C12:{kind}-monotonicity",
+            sw = "@seaweed-in-food-set" if (base_spec.get("add_sw") and kind in ("waste", "charge")) else ""
+            ctx.violation(f"C12:{kind}-monotonicity{sw}",
                           f"{kind} perturbation {label}: optimum {base_opt} -> {p} (expected {exp}) on {where}",
                           {"kind": "counterexample", "base": base_spec, "perturbed": spec, "where": where, "label": label,
                            "base_optimum": base_opt, "perturbed_optimum": p, "expected": exp0})
